@@ -107,8 +107,49 @@ def gen_spec(r: apigen.Rng, idx: int, nlro=None, layout=None):
             spec["svc2"] = gen_second_service(r, spec)
     if r.maybe(0.35):
         add_dependency_file(r, spec)
+    add_twin_types(r, spec)
     spec["service_yaml"] = gen_yaml(r, spec["pkg"]) if r.maybe(0.45) else None
     return spec
+
+
+def add_twin_types(r, spec, p=0.5, force=False):
+    """half of the APIs with several packages: ONE LRO method whose response and metadata are DIFFERENT messages with the SAME short
+    name, defined in files with the SAME base name in different packages (API package + sub-package, or two sub-packages), so that
+    both render as `<stem>.<Name>` before import aliasing; as a control (also in one-package APIs) a method whose response and
+    metadata are the SAME message.  The oracle reads `future.metadata` and `result()` of each."""
+    lros = [m for m in spec["methods"] if m["kind"] == "lro"]
+    if not lros:
+        return
+    if r.maybe(0.3) or force:                   # control: response and metadata are one and the same message
+        m = r.pick(lros)
+        m["metadata"] = dict(m["response"])
+        spec["twin"] = {"control": m["name"]}
+    pairs = [(a, b) for a in ROLES for b in ROLES if a != b and fpkg(spec, a) != fpkg(spec, b)]
+    if not pairs or not (force or r.maybe(p)):
+        return
+    a, b = r.pick(pairs)
+    others = {fpath(spec, x) for x in ROLES if x != b}
+    fb = spec["files"][b]
+    old = fb["stem"]
+    fb["stem"] = spec["files"][a]["stem"]
+    if fpath(spec, b) in others:
+        fb["stem"] = old
+        return
+    taken = lambda role: {n for x in ROLES if fpkg(spec, x) == fpkg(spec, role) for n in spec["files"][x]["msgs"]}
+    cands = [n for n in spec["files"][a]["msgs"] if n in fb["msgs"] or n not in taken(b)]
+    if cands:
+        name = r.pick(cands)
+    else:
+        name = next(n for n in ["Status", "Result", "Metadata", "Progress", "Report"] if n not in taken(a) and n not in taken(b))
+        spec["files"][a]["msgs"].append(name)
+    if name not in fb["msgs"]:
+        fb["msgs"].append(name)
+    fa_, fb_ = f"{fpkg(spec, a)}.{name}", f"{fpkg(spec, b)}.{name}"
+    ra = {"case": f"twin-{a}", "text": name if fpkg(spec, a) == spkg(spec) and r.maybe(0.5) else fa_, "target": fa_}
+    rb = {"case": f"twin-{b}", "text": name if fpkg(spec, b) == spkg(spec) and r.maybe(0.5) else fb_, "target": fb_}
+    m = r.pick([x for x in lros if x["name"] != spec.get("twin", {}).get("control")] or lros)
+    m["response"], m["metadata"] = (ra, rb) if r.maybe(0.5) else (rb, ra)
+    spec.setdefault("twin", {}).update({"method": m["name"], "roles": [a, b], "stem": fb["stem"], "name": name})
 
 
 DEP_PKGS = ["acme.shared.v1", "globex.common", "acme.shared.v1"]
@@ -1029,6 +1070,12 @@ def _run_spec(ctx, r, spec, label, files, req, transports):
     for m in lros:
         ctx.count("response_case", m["response"]["case"]); ctx.count("metadata_case", m["metadata"]["case"])
     ctx.count("file_order", ",".join(spec["order"]))
+    if spec.get("twin"):
+        tw = spec["twin"]
+        if "method" in tw:
+            ctx.count("twin_types", "same short name, same file base name, different packages: " + "+".join(sorted(fpkg(spec, x)[len(spec["pkg"]):] or "." for x in tw["roles"])))
+        if "control" in tw:
+            ctx.count("twin_types", "control: response and metadata are the same message")
     if spec.get("dep"):
         o = spec["order"]
         ctx.count("dependency_only_file", ("after" if o.index("dep") > o.index("svc") else "before") + "-svc:imported-by-" + spec["dep"]["importer"])
@@ -1619,7 +1666,9 @@ def run(ctx):
                 "one service in the API package and one in a sub-package (either is the fully exercised one; 20%: sibling sub-packages, nothing in the API package); 13% "
                 "`msgs-in-sub` = the service in the API package, its request / plain response / LRO messages in a sub-package; shadowed short names across the packages, "
                 "same file stem in two packages; all of them on gRPC, asyncio gRPC and REST with the same histories, programs and service configs; LRO methods share response/metadata types in every combination (same response, same metadata, "
-                "both, crossed, one's response = another's metadata, chains); rpcs named Operation/OperationAsync and files operation(_async).proto (module alias); 35% of the APIs name LRO types by FULL name in a "
+                "both, crossed, one's response = another's metadata, chains); rpcs named Operation/OperationAsync and files operation(_async).proto (module alias); half of the multi-package APIs have one LRO whose "
+                "response and metadata are DIFFERENT messages of the same short name in files of the same base name in different packages (both render `<stem>.<Name>` "
+                "before aliasing), 30% a control LRO whose response and metadata are the same message; 35% of the APIs name LRO types by FULL name in a "
                 "DEPENDENCY-ONLY file of another package (in proto_file, not generated) that only ANOTHER target file imports, placed before or AFTER the service's file "
                 "in proto_file (every file follows the files it imports); 40% of the APIs call one or two of the files that "
                 "define the LRO types (imported or not, API directory or sub-package directory; sometimes the service's own file) metadata|retry|timeout|request|"
